@@ -19,13 +19,22 @@ def _alarm(signum, frame):
 
 
 def guarded(fn, *a, **k):
-    """Run fn under the watchdog; returns (outcome, value)."""
+    """Run fn under the watchdog; returns (outcome, value).  A first 'hang' is not believed: the call is repeated once with six
+    times the budget (on a heavily loaded machine page faults and collector pauses were seen to use up the first budget on
+    inputs that parse in milliseconds); only a call that exceeds that too is reported as a hang."""
+    o, v = _guarded_once(HANG_S, fn, a, k)
+    if o == 'hang':
+        o, v = _guarded_once(6 * HANG_S, fn, a, k)
+    return o, v
+
+
+def _guarded_once(budget, fn, a, k):
     # the budget is CPU time of this process (a parser that hangs is busy), so that a loaded machine cannot turn a slow
     # wall clock into a false 'hang'; a generous wall-clock limit stays as a backstop
     signal.signal(signal.SIGPROF, _alarm)
     signal.signal(signal.SIGALRM, _alarm)
-    signal.setitimer(signal.ITIMER_PROF, HANG_S)
-    signal.setitimer(signal.ITIMER_REAL, max(300.0, 60 * HANG_S))
+    signal.setitimer(signal.ITIMER_PROF, budget)
+    signal.setitimer(signal.ITIMER_REAL, max(300.0, 60 * budget))
     try:
         v = fn(*a, **k)
         return 'ok', v
